@@ -306,6 +306,9 @@ func parsePacketAdaptationField(i *astikit.BytesIterator) (a *PacketAdaptationFi
 
 	a.StuffingLength = a.Length - (i.Offset() - afStartOffset)
 
+	// An adaptation field reduced to its length byte can only be written back as a one byte stuffing
+	a.IsOneByteStuffing = a.Length == 0
+
 	return
 }
 
